@@ -1231,7 +1231,11 @@ def must_pass(body, from_blocks, to_blocks, through_nodes=(), through_edges=(), 
     seen = body.reachable(starts, removed_nodes=through_nodes, removed_edges=through_edges)
     for t in to_blocks:
         if t in seen:
-            return body.path_to(starts, t, removed_nodes=through_nodes, removed_edges=through_edges)
+            # a path exists in the plain CFG: keep it only if it survives on the product with the finite store of hv.absreach
+            # (constant flags, Vec emptiness, and which variant a Result / Option / ControlFlow local holds — this is what correlates
+            # a helper's `return Err(..)` with the caller's `?` after the helper has been inlined)
+            from . import absreach
+            return absreach.must_pass(body, from_blocks, to_blocks, through_nodes, through_edges, after_from=after_from)
     return None
 
 
